@@ -388,6 +388,56 @@ def run(ctx):
                        "inside the branch that returns a safe string, the raw text of a value whose safety was not "
                        "tested on this path is used as inserted content (consumer %s arg %d): unescaped data becomes "
                        "part of a safe string" % (uc.name if uc else "?", ai), f.where(ubb))
+    # ---- S3c: escape-or-justify.  Wherever a function or closure of the filter modules escapes a value derived from
+    # one of its parameters on some path, every other path to a (non-error) return must be justified by a
+    # safe-content condition on that same value: is_safe() / `.safe`, or a kind that cannot contain markup.
+    NONTEXT = {"Bool", "Number", "None", "Undefined"}
+    n3c = 0
+    for f in prog.fns.values():
+        if not (f.loc.f.endswith("minijinja/src/filters.rs") or f.loc.f.endswith("minijinja-contrib/src/filters/mod.rs")
+                or f.loc.f.endswith("minijinja/src/value/argtypes.rs")):
+            continue
+        escs = [c for c in f.calls() if c.name in ESCAPERS and c.name != "minijinja::value::argtypes::StringInput::format"]
+        if not escs or f.path in ("minijinja::filters::escape",):
+            continue
+        for e in escs:
+            # the escaped value: which parameter (or closure argument / field of self) does it come from?
+            varg = e.args[1] if e.name in ("minijinja::filters::escape", "minijinja::vm::state::State::format") and len(e.args) > 1 else e.args[0]
+            roots = {(o.kind, o.arg) for o in flow.origins(f, varg, through_calls=lambda k: 0 if (
+                k.name.endswith("::from") or k.name.endswith("::clone") or k.name.endswith("::as_str") or k.name.endswith("::deref")) else None)
+                     if o.kind == "arg"}
+            if not roots:
+                continue
+            n3c += 1
+            removed = set()
+            for sb in sorted(f.reachable):
+                if f.term(sb)["k"] != "switch":
+                    continue
+                cd = flow.cond_of(f, sb)
+
+                def on_value(op):
+                    return bool({(o.kind, o.arg) for o in flow.origins(f, op, through_calls=lambda k: 0 if (
+                        k.name.endswith("::clone") or k.name.endswith("::deref") or k.name.endswith("Value::kind")) else None)
+                                 if o.kind == "arg"} & roots)
+                if cd.kind == "call" and cd.call.name in IS_SAFE and on_value(cd.call.args[0]):
+                    removed |= flow.true_side(f, sb, cd)
+                elif cd.kind == "local" and cd.place is not None and "safe" in flow._proj_names(cd.place):
+                    removed |= flow.true_side(f, sb, cd)
+                else:
+                    mv = flow.matches_variants(prog, f, sb, KIND)
+                    if mv is not None and mv <= NONTEXT:
+                        removed |= cfg.bool_edges(f, sb, not cd.neg)
+            errs = {bb for bb, i, st in f.all_stmts() if st["k"] == "assign" and st["place"] == {"l": 0}
+                    and st["rv"]["k"] == "agg" and st["rv"].get("variant") == "Err"}
+            errs |= {c.bb for c in f.calls() if c.dest == {"l": 0} and c.name.endswith("from_residual")}
+            through = {x.bb for x in escs} | errs
+            ok = cfg.paths_must_pass(f, 0, through, f.returns(), removed_edges=removed)
+            ctx.ob("C02.S3.unescaped-path-is-justified", "%s|%s" % (f.path, e.name.split("::")[-1]), ok,
+                   "this code escapes a value on one path, but another path returns it unescaped without an is_safe() "
+                   "test or a kind check restricted to %s on that value: text of lists, maps or other objects reaches "
+                   "a safe result raw" % sorted(NONTEXT), f.where(e.bb))
+    ctx.floor("C02.S3c escape-or-justify sites", n3c, 2)
+
     # helper functions that build safe text
     js = "minijinja::filters::builtins::join::join_safe"
     if prog.has_fn(js):
